@@ -373,6 +373,11 @@ def gen_tmap(rng, threads, n_extra=3, declare_p=0.7):
     for _ in range(rng.randint(0, n_extra)):
         tmap.append([rng.randrange(1, 1 << rng.pick([16, 32, 63])), rng.pick([rng.randrange(0, 1 << rng.pick([8, 16, 31])), 0x80000000, 0xffffffff, 0xfffffffe, rng.randrange(1 << 31, 1 << 32), 0]),
                      rng.text(rng.pick([0, 1, 5, 18, 19]), multibyte=True)[:19], rng.pick(['', 'ff', '00aa', '416200'])])
+    for t in tmap:
+        if rng.chance(0.08):
+            t[2] = dict_name(rng) or t[2]          # a name the source mentions
+        if rng.chance(0.08):
+            t[1] = rng.pick([0, 1, 2])             # the first pids
     if tmap and rng.chance(0.3):   # duplicate key, later wins
         t = list(rng.pick(tmap))
         t[1] = rng.randrange(1, 5000)
@@ -657,3 +662,73 @@ def gen_dump(rng, version=None, nthreads=None, mix=None, ops_hi=5, declare_all=T
         w['pad'] = rng.pick([0, 8, 64])
     f['writer'] = w
     return f
+
+
+# ---------------------------------------------------------------------------------------------------------------
+# dictionary: constants read from the source of the tree under test
+# ---------------------------------------------------------------------------------------------------------------
+_dict = None
+
+
+def dictionary():
+    """Integer, string and bytes constants that occur in the source of the package under test (enum member values excluded).
+    Thresholds, magic prefixes and special names that the code compares against are exactly the values a random generator
+    would never hit; reading them from the live tree also picks up constants that a change to the tree introduces."""
+    global _dict
+    if _dict is not None:
+        return _dict
+    import ast
+    import os
+    ints, strs, byts = set(), set(), set()
+    root = os.path.join(tool.REPO, 'pykdebugparser')
+    for dirpath, _dirs, files in os.walk(root):
+        for fn in sorted(files):
+            if not fn.endswith('.py'):
+                continue
+            try:
+                tree = ast.parse(open(os.path.join(dirpath, fn)).read())
+            except (SyntaxError, OSError):
+                continue
+            enum_nodes = set()
+            for node in ast.walk(tree):
+                if isinstance(node, ast.ClassDef) and any('Enum' in ast.dump(b) or 'Flag' in ast.dump(b) for b in node.bases):
+                    for sub in ast.walk(node):
+                        enum_nodes.add(id(sub))
+            for node in ast.walk(tree):
+                if id(node) in enum_nodes or not isinstance(node, ast.Constant):
+                    continue
+                v = node.value
+                if isinstance(v, bool):
+                    continue
+                if isinstance(v, int) and 2 <= v < (1 << 64):
+                    ints.add(v)
+                elif isinstance(v, str) and 2 <= len(v) <= 40 and '\n' not in v and '{' not in v:
+                    strs.add(v)
+                elif isinstance(v, bytes) and 1 <= len(v) <= 64:
+                    byts.add(v)
+    _dict = {'ints': sorted(ints), 'strs': sorted(strs), 'bytes': sorted(byts),
+             'sizes': sorted(v for v in ints if 256 <= v <= (1 << 18))}
+    return _dict
+
+
+def dict_size(rng, cap):
+    """A count right at a threshold the code names (c-1, c, c+1), capped."""
+    sizes = [v for v in dictionary()['sizes'] if v + 1 <= cap]
+    if not sizes:
+        return None
+    return rng.pick(sizes) + rng.pick([-1, 0, 1, 1])
+
+
+def dict_name(rng, maxlen=19):
+    """A name the source itself mentions (identifier-like string constant), cut to maxlen bytes; None if there is none."""
+    import re
+    names = [s for s in dictionary()['strs'] if re.fullmatch(r'[A-Za-z_][A-Za-z0-9_.\-]{2,}', s) and len(s) <= maxlen]
+    return rng.pick(names) if names else None
+
+
+def magic_record(rng):
+    """64 record bytes that begin with a byte string the source compares against (file magic, section tag, marker)."""
+    b = rng.pick(dictionary()['bytes'] or [b'\x00\x02\xaa\x55'])
+    body = bytearray(rng.randbytes(64))
+    body[:len(b)] = b[:64]
+    return bytes(body)
